@@ -16,7 +16,7 @@ PROPS = {
         crate="mon_board", cmd="c01", level="exploration",
         lanes={"quick": ["asan"], "thorough": ["asan", "miri"]},
         asan_scale={"quick": 0.25, "thorough": 0.05},
-        miri_jobs=[{"cmd": "c01", "args": ["--scale", "0.0025", "--shard", str(i), "--nshards", "16"], "timeout": 2400} for i in range(16)],
+        miri_jobs=[{"cmd": "c01", "args": ["--scale", "0.001", "--shard", str(i), "--nshards", "16"], "timeout": 2400} for i in range(16)],
         floors={"quick": {"castle_rights_subset_*": 16, "castle_wK_ThroughCheck": 1, "castle_wQ_ThroughCheck": 1, "castle_bK_ThroughCheck": 1, "castle_bQ_ThroughCheck": 1,
                           "castle_wK_Blocked": 1, "castle_bQ_Blocked": 1, "castle_wK_InCheck": 1, "castle_bK_InCheck": 1,
                           "castle_wK_Available": 1, "castle_wQ_Available": 1, "castle_bK_Available": 1, "castle_bQ_Available": 1,
@@ -57,7 +57,7 @@ PROPS = {
         crate="mon_board", cmd="c05", level="exploration",
         lanes={"quick": ["asan"], "thorough": ["asan", "miri"]},
         asan_scale={"quick": 0.25, "thorough": 0.05},
-        miri_jobs=[{"cmd": "c05", "args": ["--scale", "0.003", "--shard", str(i), "--nshards", "16"], "timeout": 2400} for i in range(16)],
+        miri_jobs=[{"cmd": "c05", "args": ["--scale", "0.0012", "--shard", str(i), "--nshards", "16"], "timeout": 2400} for i in range(16)],
         floors={"quick": {"mate_white_to_move": 20, "mate_black_to_move": 20, "stalemate_white_to_move": 5, "stalemate_black_to_move": 5, "positions_after_illegal_pseudo_legal_move": 1000,
                           "check_by_P": 10, "check_by_N": 10, "check_by_B": 10, "check_by_R": 10, "check_by_Q": 10, "synthesised_check_positions": 1000}},
         rule=STREAM + "plus a synthesiser placing a king and 1-3 attackers of every kind at every direction/distance with optional blockers, and low-material positions steered into mates; "
@@ -156,10 +156,10 @@ PROPS = {
     "C10": dict(
         crate="mon_engine", cmd="c10", level="exploration",
         floors={"quick": {"layer1_queries": 100000, "layer1_threefold_cases": 10000, "layer1_real_positions": 20000, "layer1_real_threefold": 1000, "layer2_occurrence_count_1": 500, "layer2_occurrence_count_2": 200, "layer2_occurrence_count_3": 100,
-                          "layer3_below_threshold": 150, "layer3_at_or_above_threshold": 60, "fifty_rule_applied": 30, "mate_on_threshold_ply_checks": 20}},
+                          "layer3_below_threshold": 150, "layer3_at_or_above_threshold": 60, "fifty_rule_applied": 30, "mate_on_threshold_ply_checks": 20, "layer4_perpetual_checks": 300, "layer4_scored_as_draw": 200}},
         rule="layer 1: count_repetitions (hook) against the model 'history[i] occurs >=3 times among i, i-2, ... >= i-window' on random hash histories (2-6 symbols, length <= 400, index offsets up to 60000) and on real shuffle games (hashes and clocks from the board); "
              "layer 2: lopsided low-material shuffle games (K+Q/R/QR/RR [+pawn] vs K, positions recur at varied distances, occasional pawn push, FEN clocks/move numbers up to 29000): `position fen .. moves <history>`, `go depth 1 searchmoves m` for quiet m; the reference counts occurrences of the resulting position since the last irreversible move; demand |score| <= contempt iff occurrences >= 3, else |score| >= 200; "
-             "layer 3: pawnless lopsided material with no capture or terminal position within d plies, half-move clock h = 0..150 (every value), `go depth d`, d in {1,2}: h+d < 100 => |score| >= 300 (never an early fifty-move draw); h+d >= 100 recorded as fifty_rule_applied; mate in 1 at clock 98-120 must still be `mate 1`; "
+             "layer 3: pawnless lopsided material with no capture or terminal position within d plies, half-move clock h = 0..150 (every value), `go depth d`, d in {1,2}: h+d < 100 => |score| >= 300 (never an early fifty-move draw); h+d >= 100 recorded as fifty_rule_applied; mate in 1 at clock 98-120 must still be `mate 1`; layer 4: materially lost side to move with a forced four-ply perpetual-check cycle already played once (root occurred twice): `go depth 4|5` must not score below -contempt (the third occurrence is completed inside the searched line); "
              "distinct_nontrivial = distinct history windows / (game, search move) / (position, clock, depth) cases",
         assumptions=BASE_ASSUME + ["the sign convention of the contempt offset is not asserted, only its magnitude"],
     ),
